@@ -14,17 +14,57 @@ def kinds_to_text(kinds, nl):
 
 
 def parse_fail_lines(tlc_out, tag="FAIL"):
-    """<<"FAIL", id, {"a", "b"}>> -> [(id, [clauses])]"""
-    import json
+    """<<"FAIL", id, {"a", "b"}>> (possibly wrapped over several lines by TLC) -> [(id, [clauses])]"""
+    from lib import vlib
     res = []
-    for line in tlc_out.splitlines():
-        if line.startswith('<<"%s"' % tag):
-            body = line.strip()[2:-2]
-            head, _, rest = body.partition(", ")
-            if "{" in rest:
-                idpart = rest[:rest.index(", {")] if ", {" in rest else rest
-                clauses = sorted(json.loads("[" + rest[rest.index("{") + 1:rest.rindex("}")] + "]"))
-            else:
-                idpart, clauses = rest, []
-            res.append((json.loads(idpart), clauses))
+    for v in vlib.tla_values(tlc_out):
+        if isinstance(v, list) and len(v) >= 2 and v[0] == tag:
+            res.append((v[1], sorted(v[2]) if len(v) > 2 and isinstance(v[2], list) else []))
     return res
+
+
+# ---------------------------------------------------------------- token lists -> text
+ALNUM = set("IDENT INT FLOAT LET FUNCTION RETURN IF ELSE WHILE FOR TRUE FALSE NULL BADINT".split())
+PUNCT_SAFE = set("LPAREN RPAREN LBRACE RBRACE LBRACKET RBRACKET COMMA SEMICOLON COLON".split())
+
+
+def spell(tok, quote='"'):
+    ty, lit = tok["ty"], tok.get("lit", "")
+    if ty in ("IDENT", "INT", "FLOAT"):
+        return lit
+    if ty == "STRING":
+        return quote + lit + quote
+    if ty == "RAW_STRING":
+        return "`" + lit + "`"
+    if ty == "EOF":
+        return ""
+    if ty in SPELL:
+        return SPELL[ty]
+    return lit
+
+
+def toks_to_text(toks, rng=None, style="plain"):
+    """Mechanical rendering of an exported token list [{ty, lit, nl}] (EOF last).  A token with nl
+    gets a line break in front; style chooses HOW gaps are spelled (never whether there is a line
+    break): plain | crlf | comment | blank | tight | wide | squote | mixed."""
+    out = []
+    prev = None
+    for k in toks:
+        if style == "mixed" and rng is not None:
+            st = rng.choice(["plain", "crlf", "comment", "blank", "tight", "wide", "squote"])
+        else:
+            st = style
+        if prev is not None or k.get("nl"):
+            if k.get("nl"):
+                gap = {"crlf": "\r\n", "comment": " // c;(\n", "blank": "\n\n  "}.get(st, "\n")
+            elif st == "tight" and prev is not None and k["ty"] != "EOF" and (
+                    (prev["ty"] in PUNCT_SAFE or k["ty"] in PUNCT_SAFE)):
+                gap = ""
+            elif st == "wide":
+                gap = " \t "
+            else:
+                gap = " " if k["ty"] != "EOF" else ""
+            out.append(gap)
+        out.append(spell(k, "'" if st == "squote" else '"'))
+        prev = k
+    return "".join(out)
